@@ -159,8 +159,13 @@ static void viol(const struct op *o, const char *rule, const char *fmt, ...)
 	va_start(ap, fmt);
 	vsnprintf(txt, sizeof(txt), fmt, ap);
 	va_end(ap);
-	if (o) snprintf(key, sizeof(key), "%s:%s:%s", W.P, opname[o->kind], rule);
-	else snprintf(key, sizeof(key), "%s:%s", W.P, rule);
+	/* once a write into shared read-only chain memory was witnessed in this history (soft violation
+	 * inv:immutable-chain-extended), every later mismatch of the same history is keyed as its consequence */
+	{
+		const char *sfx = (W.shared_write && !g_soft) ? ":after-immutable-chain-write" : "";
+		if (o) snprintf(key, sizeof(key), "%s:%s:%s%s", W.P, opname[o->kind], rule, sfx);
+		else snprintf(key, sizeof(key), "%s:%s%s", W.P, rule, sfx);
+	}
 	hist[0] = 0;
 	from = g_opno > 14 ? g_opno - 14 : 0;
 	for (i = from; i <= g_opno && i < 256 && p < (int)sizeof(hist) - 80; i++)
@@ -356,8 +361,6 @@ static void content_viol(const struct op *o, int bi, int involved, size_t actual
 	char rule[128];
 	if (W.mode == M_ALLOCFAIL && fault_hit())
 		snprintf(rule, sizeof(rule), "%s:%s", W.fault_reverted ? "failed-but-changed" : "success-but-partial", dir);
-	else if (W.shared_write)
-		snprintf(rule, sizeof(rule), "%s:%s:after-immutable-chain-write", involved ? "content" : "content-other-buffer", dir);
 	else
 		snprintf(rule, sizeof(rule), "%s:%s", involved ? "content" : "content-other-buffer", dir);
 	viol(o, rule, "buffer %d (%s) differs from model via %s: actual len %zu, model len %zu, first difference at %zu%s", bi,
